@@ -445,6 +445,9 @@ fn part_cli(args: &Args, rep: &Reporter) -> J {
     let mut fams = vec![
         Family { layout: 0, name: "cli:n3-lines<=2", n: 3, max_lines: 2, min_lines: 0, spells: if args.quick() { vec![0] } else { vec![0, 2] }, targets: vec![0, 1, 5], allow_missing: true, fragsets: vec![vec![0, 0, 0], vec![0, 1, 2], vec![2, 2, 0], vec![1, 2, 2]] },
         Family { layout: 1, name: "cli:n3-same-name-in-parent-dir-lines<=2", n: 3, max_lines: 2, min_lines: 1, spells: vec![0], targets: vec![0, 1], allow_missing: false, fragsets: vec![vec![0, 0, 0], vec![2, 1, 1]] },
+        // the second document is a symbolic link into a directory no pattern matches: documents are what the patterns
+        // match, under the path they are matched by
+        Family { layout: 0, name: "cli:n3-one-document-is-a-symlink-lines<=2", n: 3, max_lines: 2, min_lines: 1, spells: vec![0], targets: vec![0, 1], allow_missing: false, fragsets: vec![vec![0, 0, 0], vec![0, 1, 2]] },
     ];
     if !args.quick() {
         fams.push(Family { layout: 0, name: "cli:n3-lines=3", n: 3, max_lines: 3, min_lines: 3, spells: vec![0], targets: vec![0, 1], allow_missing: false, fragsets: vec![vec![0, 0, 0], vec![2, 0, 1]] });
@@ -487,7 +490,9 @@ fn part_cli(args: &Args, rep: &Reporter) -> J {
         par_for(cases.len(), args.threads, |ci| {
             let c = &cases[ci];
             let ops: Vec<(String, String)> = (0..c.n).map(|i| (format!("src{}", fpath(c, i)), file_text(c, i))).collect();
+            let link = f.name.contains("symlink").then(|| (ops[1].0.clone(), "store/real1.graphql".to_string()));
             let mut p = CProj::new(vec![("schema/s.graphql".to_string(), CLI_SCHEMA.to_string())], ops);
+            p.links.extend(link);
             p.resolvers_out = None;
             p.server_out = None;
             let case = |extra: J| { let mut j = case_json(c); j["part"] = json!("cli"); j["project"] = p.to_json(); j["detail"] = extra; j };
